@@ -107,6 +107,44 @@ Expect(sc) == IF Conforming(sc[1], sc[2], sc[3]) THEN "connected" ELSE "error"
 \* whether the statement leaves the outcome open (extra bytes after a well-formed message are tolerated by the code)
 Open(sc) == sc[2] = "good_extra_bytes" \/ sc[3] = "right_extra_bytes"
 
+\* ------------------------------------------------------------------ message families
+\* The classes above name what a received message is; each class is a set of byte strings, and every member must be handled like the class's
+\* representative (the one the transitions are replayed with): same result, same state, no panic.  A status message is 's' followed by a text; the
+\* five known texts are their own classes, any other valid UTF-8 text is unknown_status, any other first byte is wrong_tag.  A challenge is
+\* 'N', flags(8), challenge(4), creation(4), name length(2), name: good when the name is valid UTF-8 of the stated length, good_extra_bytes when
+\* bytes follow it, an error when cut short, mis-tagged or not UTF-8.  An acknowledgement is 'a' and a 16-byte digest.
+Rep(c, n) == [i \in 1..n |-> c]
+TOk == <<111,107>>
+TOkSim == <<111,107,95,115,105,109,117,108,116,97,110,101,111,117,115>>
+TNok == <<110,111,107>>
+TNotAllowed == <<110,111,116,95,97,108,108,111,119,101,100>>
+TAlive == <<97,108,105,118,101>>
+KnownTexts == {TOk, TOkSim, TNok, TNotAllowed, TAlive}
+ClassOfStatusText(t) == CASE t = TOk -> "ok" [] t = TOkSim -> "ok_simultaneous" [] t = TNok -> "nok" [] t = TNotAllowed -> "not_allowed" [] t = TAlive -> "alive" [] OTHER -> "unknown_status"
+MultiByte == {<<195,169>>, <<226,130,172>>, <<240,159,152,128>>}
+Utf8Texts == UNION { { Rep(97, off) \o ch \o Rep(97, L - off - Len(ch)) : off \in 0..(L - Len(ch)) } : L \in {33, 40, 64}, ch \in MultiByte }
+NearMisses == UNION { { SubSeq(k, 1, Len(k) - 1), k \o <<120>>, k \o <<0>>, k \o <<32>>, <<32>> \o k, <<k[1] - 32>> \o SubSeq(k, 2, Len(k)) } : k \in KnownTexts }
+UnknownTexts == (NearMisses \cup { Rep(97, n) : n \in (1..70) \cup {255, 256, 1000} } \cup Utf8Texts \cup {<<>>}) \ KnownTexts
+BadUtf8 == {<<255,254>>, <<195>>, <<192,128>>, <<237,160,128>>, <<244,144,128,128>>, <<226,130>>}
+StatusFamily == { [msg |-> "status", class |-> ClassOfStatusText(t), bytes |-> <<115>> \o t] : t \in KnownTexts \cup UnknownTexts }
+                \cup { [msg |-> "status", class |-> "wrong_tag", bytes |-> <<g>> \o TOk] : g \in (0..255) \ {115} }
+                \cup { [msg |-> "status", class |-> "non_utf8", bytes |-> <<115>> \o Rep(97, n) \o b \o Rep(97, m)] : n \in {0, 31, 32, 40}, m \in {0, 3}, b \in BadUtf8 }
+                \cup { [msg |-> "status", class |-> "empty", bytes |-> <<>>] }
+\* challenges and acknowledgements are built by the harness around the parameter set: name, stated length (-1: the true one), cut (-1: none), first byte, bytes appended
+ChalSpec(c, name, nlen, cut, tag, extra) == [msg |-> "challenge", class |-> c, name |-> name, nlen |-> nlen, cut |-> cut, tag |-> tag, extra |-> extra]
+NameTail == <<64,104>>
+ChallengeFamily == { ChalSpec("good", t \o NameTail, 0 - 1, 0 - 1, 78, 0) : t \in Utf8Texts \cup { Rep(97, n) : n \in {0, 1, 253, 254, 255, 256, 1000} } }
+                   \cup { ChalSpec("good_extra_bytes", Rep(97, 5) \o NameTail, 0 - 1, 0 - 1, 78, n) : n \in {1, 2, 255} }
+                   \cup { ChalSpec("wrong_tag", Rep(97, 5) \o NameTail, 0 - 1, 0 - 1, g, 0) : g \in (0..255) \ {78} }
+                   \cup { ChalSpec("truncated", Rep(97, 5) \o NameTail, 0 - 1, cut, 78, 0) : cut \in 1..25 }        \* the whole message is 26 bytes
+                   \cup { ChalSpec("name_len_lies", Rep(97, 5) \o NameTail, n, 0 - 1, 78, 0) : n \in {8, 9, 255, 65535} }
+                   \cup { ChalSpec("non_utf8_name", Rep(97, n) \o b \o NameTail, 0 - 1, 0 - 1, 78, 0) : n \in {0, 31, 32}, b \in BadUtf8 }
+AckSpec(c, digest, cut, tag, extra) == [msg |-> "ack", class |-> c, digest |-> digest, cut |-> cut, tag |-> tag, extra |-> extra]
+AckFamily == { AckSpec("right", "right", 0 - 1, 97, 0) } \cup { AckSpec("right_extra_bytes", "right", 0 - 1, 97, n) : n \in {1, 2, 255} }
+             \cup { AckSpec("wrong_tag", "right", 0 - 1, g, 0) : g \in (0..255) \ {97} }
+             \cup { AckSpec("short", "right", cut, 97, 0) : cut \in 1..16 }
+             \cup { AckSpec("wrong_digest", d, 0 - 1, 97, 0) : d \in {"wrong", "flip_first_bit", "flip_last_bit", "zeros", "own_challenge"} }
+Families == StatusFamily \cup ChallengeFamily \cup AckFamily
 \* ------------------------------------------------------------------ layouts
 U16(n) == << n \div 256, n % 256 >>
 \* flags are 8 bytes big-endian; hi = first four, lo = last four
